@@ -15,10 +15,14 @@ def run(tier, seed):
             cases.append(Case('ecdsa_a%d_seed_%d' % (algo, n), 'crypto', 'zzC12_ecdsa', [algo, n], opts={'big_len_set': blens}))
     for n in ([32, 33, 64, 256] if thorough else [32, 256]):
         cases.append(Case('bls_retry_seed_%d' % n, 'crypto', 'zzC12_bls', [n], opts={'setup': GB, 'force_first_zero': True, 'symbolic_only': True}))
+    cases.append(Case('concurrent_bls', 'crypto', 'zzC12_concurrent', [0], opts={'setup': GB}))
+    for a in (1, 2):
+        cases.append(Case('concurrent_ecdsa_a%d' % (a - 1), 'crypto', 'zzC12_concurrent', [a], opts={'big_len_set': blens}))
     mlens = list(range(1, 101)) if thorough else [1, 2, 16, 31, 32, 33, 47, 48, 49, 63, 64, 65, 96]
     for n in mlens:
         cases.append(Case('mapToFr_%d' % n, 'crypto', 'zzC12_mapToFr', [n], opts={'setup': GB}))
-    return run_check('C12', cases, tier, seed, setup='symex.setup_c:with_c',
+    cases.sort(key=lambda c: 0 if c.fn == 'zzC12_concurrent' else 1)      # (their counterexamples are the ones that replay natively)
+    return run_check('C12', cases, tier, seed, setup='symex.setup_c:with_c', replay_flags='-race',
         functions=['crypto.GeneratePrivateKey', '(*crypto.blsBLS12381Algo).generatePrivateKey', 'crypto.mapToFr', 'C:map_bytes_to_Fr', 'C:Fr_from_be_bytes (chunking loop, limbs_from_be_bytes executed)',
                    '(*crypto.ecdsaAlgo).generatePrivateKey', 'crypto.goecdsaMapKey', 'crypto.goecdsaPrivateKey', '(*crypto.prKeyBLSBLS12381).PublicKey', '(*crypto.prKeyECDSA).PublicKey'],
         bounds={'seed lengths': '0..300' if thorough else str(slens), 'seed contents': 'every byte symbolic',
